@@ -857,7 +857,7 @@ Section Sched.
       end
     end
 
-  (* Scheduler.fire_event *)
+  (* Scheduler._fire_event (the public fire_event forwards service-finished events to it) *)
   with sched_fire_event (f : nat) (ev : event) {struct f} : N bool :=
     match f with
     | O => nfail Fuel
@@ -933,8 +933,10 @@ Section NetApi.
            | Fuel => Fuel | Exn k => Exn k | Unsupported => Unsupported
            end
       else Ok (true, s)
+    (* the public Scheduler.fire_event forwards service-finished events only (to _fire_event =
+       [sched_fire_event]); every other event type is rejected at the gate *)
     | AFinish id => sched_fire_event tasks env f (EvFinish (ITest id)) s
-    | AJunk => sched_fire_event tasks env f EvJunk s
+    | AJunk => sched_fire_event tasks env f EvJunk s     (* never awaited: rejected, state unchanged *)
     | ARegister k l =>
       if existsb (fun p => nkind_eqb (fst p) k && Nat.eqb (snd p) l) (ns_ls s)
       then Ok (false, s)
